@@ -97,7 +97,9 @@ def run_p(report: Report, prop: str, tier: str, targets: Optional[List[str]] = N
     # out while all cores were busy must not be reported (DESIGN.md 12.1: verdict stability)
     def second_chance(res, env_extra=None):
         nonlocal budget
-        again = [t for t, r in res.items() if undecided(r)]
+        # only the signature of a busy machine (a few undecided obligations) is retried; a function
+        # with many undischarged obligations has changed
+        again = [t for t, r in res.items() if undecided(r) and sum(1 for v in r["verdicts"] if v["status"] != "discharged" and v["kind"] != "vacuity") <= 3]
         if not again:
             return False
         b0 = budget
@@ -156,7 +158,7 @@ def run_p(report: Report, prop: str, tier: str, targets: Optional[List[str]] = N
         for v in r["verdicts"]:
             if v["kind"] == "vacuity" and v["status"] != "discharged":
                 report.tool_error(f"{t}: contradictory preconditions / lemmas / axioms (vacuity guard proved False)")
-        bad = [v for v in r["verdicts"] if v["status"] != "discharged" and v["kind"] != "vacuity"]
+        bad = [v for v in r["verdicts"] if v["status"] not in ("discharged", "skipped") and v["kind"] != "vacuity"]
         seen = set()
         for v in bad:
             key = (t, v["name"])
